@@ -32,7 +32,7 @@ def env_sx(tokens=None, unicode_escape=True, well_typed=True):
     return ["env"] + [SX.s2sx(d[k]) for k in ("root", "fake", "self", "key", "union", "inter", "fctx", "keys")] + [unicode_escape, well_typed]
 
 
-LITS = [0, 1, -1, 10, 1.5, -2.5, 0.5, 100.0, 1e-7, 2.5e10, 1e16, 123456789012, "a'b", 'q"x', "back\\slash", "tab\t", "\x01", "é\U0001F600", ""]
+LITS = [0, 1, -1, 10, 1.5, -2.5, 0.5, 100.0, 1e-7, 2.5e10, 1e16, 1e22, -3e-9, 123456789012, "a'b", 'q"x', "back\\slash", "tab\t", "\x01", "é\U0001F600", ""]
 
 
 def gen_rich_logical(rng, depth):
